@@ -873,3 +873,200 @@ def c08_search(rng, n, adaptive_share=0.0):
             if len(fails) >= 2:
                 break
     return fails, st
+
+
+# ---------------------------------------------------------------------------------------------------------------
+# C10: reversible-Heun adjoint vs backprop on the real sdeint / sdeint_adjoint
+# ---------------------------------------------------------------------------------------------------------------
+
+def c10_case(noise, d, m, batch, seed, dt, ks, t0=0.0):
+    sde = RandSDE(noise, 'stratonovich', d, m, seed)
+    g0 = torch.Generator().manual_seed(seed)
+    ts = [t0 + k * dt for k in ks]
+    w = torch.randn(len(ts), batch, d, generator=g0, dtype=torch.float64)
+    p = dict(method='reversible_heun', batch=batch, m=sde.m, seed=seed)
+    params = list(sde.parameters())
+    res = []
+    slivers = 0
+    for adjoint in (False, True):
+        y0 = (0.3 * torch.randn(batch, d, generator=torch.Generator().manual_seed(seed + 1), dtype=torch.float64)).requires_grad_(True)
+        bm = RecordingBM(make_bm(p, ts[0], ts[-1]))
+        with core.time_limit(300):
+            if adjoint:
+                ys = torchsde.sdeint_adjoint(sde, y0, ts, bm=bm, method='reversible_heun', adjoint_method='adjoint_reversible_heun',
+                                             dt=dt, adjoint_params=params)
+            else:
+                ys = torchsde.sdeint(sde, y0, ts, bm=bm, method='reversible_heun', dt=dt)
+            n_fwd = len(bm.log)
+            grads = torch.autograd.grad((w * ys).sum(), [y0] + params, allow_unused=True)
+        if adjoint:
+            slivers = sum(1 for a, b in bm.log[n_fwd:] if abs(b - a) < 1e-6 * dt)
+        res.append([torch.zeros_like(x) if g is None else g for g, x in zip(grads, [y0] + params)])
+    rel = max(float((a - b).abs().max()) / (1.0 + float(a.abs().max())) for a, b in zip(*res))
+    return rel, slivers
+
+
+def c10_search(rng, n):
+    fails, st = [], dict(evals=0, worst_rel=0.0, F9_instances=0, nondyadic=0, steps=0)
+    for _ in range(n):
+        dyadic = rng.random() < 0.7
+        dt = rng.choice([0.125, 0.0625, 0.25]) if dyadic else rng.choice([0.1, 0.05, 0.3])
+        ks = [0] + sorted(rng.sample(range(1, 14), rng.randrange(1, 5)))
+        cfg = dict(noise=rng.choice(NOISE), d=rng.choice([1, 2, 3]), m=rng.choice([1, 2, 3]), batch=rng.choice([1, 2]),
+                   seed=rng.randrange(10 ** 6), dt=dt, ks=ks, t0=rng.choice([0.0, 0.0, 0.5, -0.25]) if dyadic else 0.0)
+        try:
+            rel, slivers = c10_case(**cfg)
+            # dyadic dt: the step grid is exact in floats, the two gradients agree to ~1e-15; other dt: the accumulated grid and the
+            # output times differ in the last bits, which rounding amplifies to ~1e-10..1e-9 (allow 1e-8)
+            bad = None if rel <= (1e-9 if dyadic else 1e-8) else f"adjoint and backprop gradients differ: relative {rel:.2e}"
+            if bad and slivers:
+                # known finding F9: the accumulated float grid of a backward segment misses the segment end by an ulp and takes
+                # an extra sliver step (a zero-length reversible-Heun step is not the identity)
+                st['F9_instances'] += 1
+                bad = None
+        except Exception as e:  # noqa
+            bad, rel = f"{type(e).__name__}: {e}", 0.0
+        st['evals'] += 1
+        st['nondyadic'] += int(not dyadic)
+        st['steps'] += ks[-1]
+        st['worst_rel'] = max(st['worst_rel'], rel if not (slivers if 'slivers' in dir() else 0) else 0.0)
+        if bad:
+            fails.append(dict(kind='c10', why=bad, **cfg))
+            if len(fails) >= 2:
+                break
+    return fails, st
+
+
+# ---------------------------------------------------------------------------------------------------------------
+# C09: sdeint_adjoint — same forward values, gradients converge, only requested tensors get gradients
+# ---------------------------------------------------------------------------------------------------------------
+
+ADJOINT_METHODS = {'ito': ['euler', 'milstein'], 'stratonovich': ['midpoint', 'heun', 'euler_heun', 'milstein', 'reversible_heun']}
+
+
+class ParamGBM(nn.Module):
+    """dy = a y dt + b y dW, parameters a, b (and an unused parameter c)"""
+
+    def __init__(self, noise_type, sde_type, a=0.3, b=0.5):
+        super().__init__()
+        self.noise_type, self.sde_type = noise_type, sde_type
+        self.a = nn.Parameter(torch.tensor(a, dtype=torch.float64))
+        self.b = nn.Parameter(torch.tensor(b, dtype=torch.float64))
+        self.c = nn.Parameter(torch.tensor(1.0, dtype=torch.float64))
+
+    def f(self, t, y):
+        return self.a * y
+
+    def g(self, t, y):
+        return self.b * y if self.noise_type == 'diagonal' else (self.b * y).unsqueeze(-1)
+
+
+def c09_forward_equal(rng):
+    p, sde, y0 = make_problem(rng)
+    dt = rng.choice([0.125, 0.1, 0.05])
+    ts, _ = random_ts(rng, dt)
+    am = None
+    if rng.random() < 0.7:
+        am = rng.choice(ADJOINT_METHODS[p['sde_type']])
+        if am == 'milstein' and p['noise'] in ('general', 'scalar'):
+            am = None
+        if am == 'reversible_heun':
+            am = 'adjoint_reversible_heun' if p['method'] == 'reversible_heun' else None
+    with torch.no_grad():
+        a = torchsde.sdeint(sde, y0, ts, bm=make_bm(p, ts[0], ts[-1]), method=p['method'], dt=dt)
+    b = torchsde.sdeint_adjoint(sde, y0.clone().requires_grad_(True), ts, bm=make_bm(p, ts[0], ts[-1]), method=p['method'], dt=dt,
+                                adjoint_method=am)
+    return torch.equal(a, b.detach()), dict(p, dt=dt, ts=ts, adjoint_method=am)
+
+
+def c09_gradient_errors(sde_type, noise, method, adjoint_method, seed, paths=64, T=0.5, ks=(3, 5, 7)):
+    """relative error of the adjoint gradient of sum(y_T) w.r.t. (y0, a, b) against the gradient of the EXACT solution on the same
+    Brownian paths, for dt = 2^-k"""
+    errs = []
+    for k in ks:
+        sde = ParamGBM(noise, sde_type)
+        y0 = torch.full((paths, 1), 1.0, dtype=torch.float64, requires_grad=True)
+        levy = LEVY.get(method, 'none')
+        bm = BrownianInterval(t0=0.0, t1=T, size=(paths, 1), dtype=torch.float64, entropy=seed, levy_area_approximation=levy)
+        ys = torchsde.sdeint_adjoint(sde, y0, [0.0, T], bm=bm, method=method, adjoint_method=adjoint_method, dt=2.0 ** -k)
+        gy, ga, gb = torch.autograd.grad(ys[-1].sum(), [y0, sde.a, sde.b])
+        W = bm(0.0, T)
+        a, b = float(sde.a), float(sde.b)
+        drift = (a - 0.5 * b * b) if sde_type == 'ito' else a
+        yT = torch.exp(drift * T + b * W)
+        ex_y = yT
+        ex_a = (T * yT).sum()
+        ex_b = ((W - b * T) * yT).sum() if sde_type == 'ito' else (W * yT).sum()
+        e = max(float((gy - ex_y).abs().max() / ex_y.abs().max()), abs(float(ga - ex_a)) / abs(float(ex_a)),
+                abs(float(gb - ex_b)) / max(1.0, abs(float(ex_b))))
+        errs.append(e)
+    return errs
+
+
+def c09_search(rng, n):
+    fails, st = [], dict(evals=0, forward_equal=0, convergence=0, requested_only=0, worst_final_err=0.0)
+    for _ in range(n):
+        try:
+            ok, cfg = c09_forward_equal(rng)
+            st['forward_equal'] += 1
+            st['evals'] += 1
+            if not ok:
+                fails.append(dict(kind='c09-forward', why='sdeint_adjoint returns different values than sdeint', **cfg))
+        except Exception as e:  # noqa
+            fails.append(dict(kind='c09-forward', why=f"{type(e).__name__}: {e}"))
+        if len(fails) >= 2:
+            return fails, st
+    # convergence of the gradients: every (sde type, noise type, method, adjoint method) the library accepts at d = m = 1
+    combos = []
+    for method, sde_type, noises in SOLVERS:
+        for noise in noises:
+            if noise == 'additive':
+                continue
+            for am in ADJOINT_METHODS[sde_type] + [None]:
+                if am == 'milstein' and noise != 'diagonal':
+                    continue
+                if am == 'reversible_heun':
+                    if method != 'reversible_heun':
+                        continue
+                    am = 'adjoint_reversible_heun'
+                combos.append((sde_type, noise, method, am))
+    rng.shuffle(combos)
+    for sde_type, noise, method, am in combos[:max(6, n // 4)]:
+        seed = rng.randrange(10 ** 6)
+        try:
+            errs = c09_gradient_errors(sde_type, noise, method, am, seed)
+            st['convergence'] += 1
+            st['evals'] += 1
+            st['worst_final_err'] = max(st['worst_final_err'], errs[-1])
+            if not (errs[-1] < 0.6 * errs[0] or errs[-1] < 2e-3):
+                fails.append(dict(kind='c09-convergence', sde_type=sde_type, noise=noise, method=method, adjoint_method=am, seed=seed,
+                                  why=f"relative gradient errors {errs} at dt = 2^-3, 2^-5, 2^-7 do not shrink"))
+        except Exception as e:  # noqa
+            fails.append(dict(kind='c09-convergence', sde_type=sde_type, noise=noise, method=method, adjoint_method=am, seed=seed,
+                              why=f"{type(e).__name__}: {e}"))
+        if len(fails) >= 2:
+            return fails, st
+    # only the tensors asked for receive gradients
+    for _ in range(max(4, n // 10)):
+        sde_type = rng.choice(['ito', 'stratonovich'])
+        sde = ParamGBM('diagonal', sde_type)
+        which = rng.choice(['a-only', 'b-frozen', 'y0-no-grad'])
+        y0 = torch.full((3, 1), 1.0, dtype=torch.float64, requires_grad=(which != 'y0-no-grad'))
+        kw = {}
+        if which == 'a-only':
+            kw['adjoint_params'] = (sde.a,)
+        if which == 'b-frozen':
+            sde.b.requires_grad_(False)
+        bm = BrownianInterval(t0=0.0, t1=0.5, size=(3, 1), dtype=torch.float64, entropy=rng.randrange(10 ** 6),
+                              levy_area_approximation='space-time')
+        ys = torchsde.sdeint_adjoint(sde, y0, [0.0, 0.25, 0.5], bm=bm, dt=0.125, **kw)
+        ys.sum().backward()
+        got = dict(a=sde.a.grad is not None, b=sde.b.grad is not None, c=sde.c.grad is not None and float(sde.c.grad.abs()) > 0,
+                   y0=y0.grad is not None)
+        want = dict(a=True, b=(which == 'a-only') is False and which != 'b-frozen', c=False, y0=which != 'y0-no-grad')
+        st['requested_only'] += 1
+        st['evals'] += 1
+        if got != want:
+            fails.append(dict(kind='c09-requested-only', case=which, sde_type=sde_type, got=got, want=want,
+                              why='gradients delivered to tensors that were not asked for (or withheld from ones that were)'))
+    return fails[:3], st
